@@ -233,7 +233,10 @@ REGRESSIONS = [
     ("sep-shared", "S: A+[Comma] X A+; terminals A: 'a'; Comma: ','; X: 'x';", "are used with different separators"),
     ("sep-shared-star", "S: A* X A+[Comma]; terminals A: 'a'; Comma: ','; X: 'x';", "are used with different separators"),
     ("kind-keyword", "S: A {fn}; terminals A: 'a';", "as a valid Rust identifier"),
-    ("aug-ref", "S: A AUG; terminals A: 'a';", "can't derive a string of terminals"),
+    ("aug-ref", "S: A AUG; terminals A: 'a';", "is a reserved name"),
+    ("aug-ref-hang", "S: A | A AUG; terminals A: 'a';", "is a reserved name"),
+    ("augl-ref", "S: A | AUGL A; Layout: B; terminals A: 'a'; B: 'b';", "is a reserved name"),
+    ("aug-ref-prio", "S: A {1} | C  AUG {100} | A B ; terminals A: 'a' {0}; B: 'b' {99}; C: 'c';", "is a reserved name"),
     ("f5-three-way", "S: E; E: E '+' E | X | Y; X: 'a' '+'?; Y: 'a' {15}; terminals A: 'a'; P: '+';", None),
     ("f5-variant", "E: E P | X | Y; X: A P | A; Y: A {15}; terminals A: 'a'; P: '+';", None),
 ]
